@@ -70,7 +70,6 @@ impl<E: Endianness, BW: BitWrite<E>, const PRINT: bool> BitWrite<E>
 
     fn flush(&mut self) -> Result<usize, Self::Error> {
         self.bit_write.flush().inspect(|x| {
-            self.bits_written += *x;
             if PRINT {
                 eprintln!("flush() = {} (total = {})", x, self.bits_written);
             }
